@@ -31,7 +31,11 @@ def build(hooks=True):
 def run_scenario(scenario, args, timeout=120):
     """args: dict or list of dicts. returns (list of result dicts, exit code)"""
     b = build()
-    p = subprocess.run([b, scenario, json.dumps(args)], capture_output=True, text=True, timeout=timeout)
+    try:
+        p = subprocess.run([b, scenario, json.dumps(args)], capture_output=True, text=True, timeout=timeout)
+    except subprocess.TimeoutExpired:
+        # a hanging native run decides nothing (the caller reports the model as not reproduced => inconclusive)
+        return [], 2, f"native scenario {scenario} did not finish within {timeout}s"
     outs = []
     for ln in p.stdout.splitlines():
         ln = ln.strip()
